@@ -143,7 +143,7 @@ def stream_wired_to_client(S, st):
     return bool(isinstance(th, dict) and list(th) == ["_"] and th["_"] is cl.fields["throttle"] and _same(it, st.fields["read_timeout"], cl.fields["socket_timeout"]) and _same(it, st.fields["write_timeout"], cl.fields["socket_timeout"]))
 
 
-c.ensures(lambda S: stream_wired_to_client(S, S.result), "data-stream-is-limited-by-the-client's-one-throttle-and-uses-socket_timeout", props=["C15", "C16"])
+c.ensures(lambda S: stream_wired_to_client(S, S.result), "data-stream-is-limited-by-the-client's-one-throttle-and-uses-socket_timeout", props=["C15"])
 
 
 # ---- DataConnectionThrottleStreamIO.__aexit__ / finish
@@ -273,7 +273,7 @@ def setup_client_init(u):
     return Builtin("BaseClient(...)", lambda i, a, k: i.call(u.cls(CLIENT, "BaseClient"), [], kwargs)), [], {}, {"rl": rl, "wl": wl, "st": st}
 
 
-c = contract(CLIENT, "BaseClient.__init__", props=["C15", "C16"])
+c = contract(CLIENT, "BaseClient.__init__", props=["C15"])
 c.setup = setup_client_init
 
 
@@ -312,7 +312,7 @@ def setup_connect(u):
     return it.getattr_(u.cls(CLIENT, "BaseClient"), "connect"), [cl, host, port], {}, {"self": cl, "host": host, "port": port, "pair": pair}
 
 
-c = contract(CLIENT, "BaseClient.connect", props=["C15", "C16"])
+c = contract(CLIENT, "BaseClient.connect", props=["C15"])
 c.setup = setup_connect
 c.raises_("OSError")
 c.raises_("TimeoutError")
@@ -549,3 +549,129 @@ for _d, _m in (("up", "upload"), ("down", "download")):
         c.raises_(_e, branch_raise, "file-closed-and-stream-abandoned-not-finished")
     c.cancellable = True
     c.assumptions.append(f"block contract: the `async with self.path_io.open(...), self.{_m}_stream(...)` statement (with the copy loop inside) is extracted from the AST of the real Client.{_m}; get_stream and path_io.open are stand-ins that record their arguments (get_stream has its own contract)")
+
+
+# ------------------------------------------------------------------------------------ Client.get_passive_connection
+def setup_gpc(u):
+    it = u.it
+    cl = mk_client(u)
+    order = [("epsv", "pasv"), ("pasv",), ("epsv",), ("pasv", "epsv")][u.choose(4, "passive-commands")]
+    cl.fields["_passive_commands"] = order
+    cl.fields["server_host"] = fresh("str", "server_host")
+    conn_type = fresh("str", "conn_type")
+    sent, opened, answers = [], [], []
+
+    def command(i, a, k):
+        def run():
+            i.suspend("command")
+            cmd, exp = a[1], (a[2] if len(a) > 2 else None)
+            oc = i.ctx.choose(3, "reply")  # accepted, refused 502 (not implemented), refused otherwise
+            sent.append((cmd, exp, oc))
+            if oc:
+                code = i.call(u.cls(CLIENT, "Code"), [["502", "550"][oc - 1]], {})
+                raise PyRaise(i.call(u.cls("aioftp.errors", "StatusCodeError"), [i.call(u.cls(CLIENT, "Code"), [exp], {}), code, ["refused"]], {}))
+            line = fresh("str", "reply_line")
+            return (i.call(u.cls(CLIENT, "Code"), [exp if exp and exp.isdigit() else "200"], {}), [line])
+
+        return Coro(run, "command")
+
+    def mk_parser(kind):
+        def parse(i, a, k):
+            port = fresh("int", "port")
+            if kind == "epsv":
+                ip = None
+            else:
+                ip = ["0.0.0.0", None][0] if i.ctx.choose(2, "pasv-ip-unspecified") == 1 else fresh("str", "ip")
+                if isinstance(ip, SV):
+                    i.ctx.assume(ip.t != z3.StringVal("0.0.0.0"))
+            answers.append((kind, a[-1], ip, port))
+            return (ip, port)
+
+        return parse
+
+    def open_conn(i, a, k):
+        def run():
+            i.suspend("open_connection")
+            if i.ctx.choose(2, "connect-outcome") == 1:
+                i.throw("OSError")
+            r, w = Reader("data"), Writer("data")
+            opened.append((a, r, w))
+            return (r, w)
+
+        return Coro(run, "open_connection")
+
+    attrs = {}
+    for nm, fn in (("command", command), ("parse_epsv_response", mk_parser("epsv")), ("parse_pasv_response", mk_parser("pasv"))):
+        b = Builtin("Client." + nm, fn)
+        b.is_method = True
+        attrs[nm] = b
+    cl.cls = type(cl.cls)(cl.cls.name, [cl.cls], attrs)
+    cl.fields["_open_connection"] = Builtin("open_connection", open_conn)
+    return it.getattr_(cl, "get_passive_connection"), [conn_type], {}, {"self": cl, "conn_type": conn_type, "order": order, "sent": sent, "opened": opened, "answers": answers}
+
+
+c = contract(CLIENT, "Client.get_passive_connection", props=["C01"])
+c.setup = setup_gpc
+c.raises_("CancelledError")
+c.raises_("OSError")
+
+
+def _gpc_protocol(S, upto_success):
+    """TYPE <conn_type> (expecting 200) first; then the configured passive commands in order, each expecting its own
+    code (EPSV 229 / PASV 227), the next one tried only after the previous was refused with 50x"""
+    it = S.it
+    sent, order = S.vars["sent"], S.vars["order"]
+    if not sent:
+        return False
+    t = sent[0]
+    if t[1] != "200":
+        return False
+    conj = [it.unbox(t[0]).t == z3.Concat(z3.StringVal("TYPE "), S.vars["conn_type"].t)]
+    tries = sent[1:]
+    if len(tries) > len(order):
+        return False
+    for j, (cmd, exp, oc) in enumerate(tries):
+        want = {"epsv": ("EPSV", "229"), "pasv": ("PASV", "227")}[order[j]]
+        if not (isinstance(cmd, str) and cmd == want[0] and exp == want[1]):
+            return False
+        if j < len(tries) - 1 and oc != 1:
+            return False  # moved on after something other than a 50x refusal
+    return z3.And(*conj)
+
+
+def gpc_post(S):
+    it = S.it
+    sent, opened, answers = S.vars["sent"], S.vars["opened"], S.vars["answers"]
+    proto = _gpc_protocol(S, True)
+    if proto is False or sent[0][2] != 0 or len(sent) < 2 or sent[-1][2] != 0:
+        return False
+    if len(opened) != 1 or len(answers) != 1:
+        return False
+    kind, line, ip, port = answers[0]
+    (a, r, w) = opened[0]
+    res = S.result
+    if not (isinstance(res, tuple) and res[0] is r and res[1] is w and a[1] is port):
+        return False
+    host = S.vars["self"].fields["server_host"]
+    if ip is None or (isinstance(ip, str) and ip == "0.0.0.0"):
+        return z3.And(proto, z3.BoolVal(a[0] is host))
+    return z3.And(proto, z3.BoolVal(a[0] is ip))
+
+
+c.ensures(gpc_post, "TYPE-then-passive-commands-in-order-with-50x-fallback-then-connects-to-the-address-of-the-accepted-reply")
+
+
+def gpc_refused(S):
+    """a refusal ends the attempt unless it is a 50x to a passive command that has a successor"""
+    sent, order = S.vars["sent"], S.vars["order"]
+    proto = _gpc_protocol(S, False)
+    if proto is False or S.vars["opened"]:
+        return False
+    last = sent[-1]
+    if len(sent) == 1:
+        return z3.And(proto, z3.BoolVal(last[2] != 0))
+    is_last_cmd = len(sent) - 1 == len(order)
+    return z3.And(proto, z3.BoolVal(last[2] == 2 or (last[2] == 1 and is_last_cmd)))
+
+
+c.raises_("StatusCodeError", gpc_refused, "refusal-is-reported-unless-50x-with-a-fallback-left")
